@@ -1354,6 +1354,9 @@ class Interp:
             if name == "update":
                 def upd(it, a, k):
                     for x in a:
+                        if hasattr(x, "pyvc_update_into"):
+                            x.pyvc_update_into(it, obj)
+                            continue
                         obj.update(x)
                     obj.update(k)
                     cur().effects.append(("dict-write", id(obj), "*"))
@@ -1782,7 +1785,9 @@ class Interp:
                 return AbsColl(a[0].deps, "dict")
             if a:
                 src = a[0]
-                if isinstance(src, dict):
+                if hasattr(src, "pyvc_update_into"):
+                    src.pyvc_update_into(it, d)
+                elif isinstance(src, dict):
                     d.update(src)
                 else:
                     for kv in it.iterate(src):
